@@ -1045,6 +1045,11 @@ def _spec(case, out):
             bad.append("cycle %d: recorded tick %s, fold over the %d live elements is %s" % (ncyc - 1, rec, n, want))
         if exp is not None and exp != prev_exp and rec == "-":
             bad.append("cycle %d: the fold changed from %s to %s but the result did not tick" % (ncyc - 1, prev_exp, exp))
+        elif exp is not None and rec == "-" and (nset or nupd or ndel):
+            # a TS result aliases the root of the combiner tree: an element that ticks, an element that arrives or
+            # leaves re-evaluates / re-points the root, and the result ticks even when the new fold equals the old one
+            bad.append("cycle %d: elements ticked / arrived / left (%d set, %d updated, %d removed) and the fold is %s, but the "
+                       "result did not tick (a tick with an equal value is still a tick)" % (ncyc - 1, nset, nupd, ndel, exp))
         prev_exp = exp
     if seen_max >= 3 and ({"update-live-element"} & feats or any(x.startswith("remove-") and x != "remove-missing-key" for x in feats)):
         feats.add("nontrivial")
@@ -1070,6 +1075,20 @@ def alarm_filter(stream, case, impl_out, model_out):
     notes, alarm = [], False
     if len(impl_out) != len(model_out):
         return True, ["line counts differ"]
+    # lines at which a supplied live zero has not ticked yet (the excluded point C11-zero-unset): the model claims
+    # nothing about ticks there
+    unset, zero_ts, zseen = set(), False, False
+    for i, ln in enumerate(case.lines):
+        w = ln.split()
+        if w[:1] == ["cfg"] and len(w) == 4:
+            zero_ts, zseen = w[3] == "ts", False
+        elif w[:1] == ["c"]:
+            if "z" in w[1:]:
+                zseen = True
+            if zero_ts and not zseen:
+                unset.add(i)
+        elif w[:1] == ["case"]:
+            zero_ts, zseen = False, False
     for i, (a, b) in enumerate(zip(impl_out, model_out)):
         if a == b:
             continue
@@ -1085,7 +1104,8 @@ def alarm_filter(stream, case, impl_out, model_out):
             # set-valued result: the recorded delta (and whether there is one) is what the keyed publication is about
             alarm = True
             notes.append("line %d: recorded delta %s vs %s" % (i, fa.get("rec"), fb.get("rec")))
-        elif fa.get("rec", "-") != "-" and fb.get("rec", "-") != "-" and fa.get("rec") != fb.get("rec"):
+        elif fa.get("rec", "-") != fb.get("rec", "-") and (i not in unset or "-" not in (fa.get("rec", "-"), fb.get("rec", "-"))):
+            # which cycles tick is part of what a consumer of the result sees (a tick with an equal value included)
             alarm = True
             notes.append("line %d: rec %s vs %s" % (i, fa.get("rec"), fb.get("rec")))
         elif fa.get("ev") != fb.get("ev"):
